@@ -328,7 +328,18 @@ impl<'a> Gen<'a> {
                     // (the element may carry an id / class / colour like any other)
                     let mut attrs = vec![];
                     self.maybe_id(&mut attrs);
-                    if self.rng.chance(1, 2) {
+                    if self.rng.chance(1, 4) {
+                        // digits first, then more content (not the digits-only special case)
+                        let d = format!("{}", self.rng.below(100));
+                        *budget = budget.saturating_sub(1);
+                        let w = self.word();
+                        let more = match self.rng.below(3) {
+                            0 => H::El("em".into(), vec![], vec![H::Text(w)]),
+                            1 => H::El("sup".into(), vec![], vec![H::Text(w)]),
+                            _ => H::El("span".into(), vec![], vec![H::Text(format!(" {}", w))]),
+                        };
+                        v.push(H::El("sup".into(), attrs, vec![H::Text(d), more]));
+                    } else if self.rng.chance(1, 2) {
                         let d = format!("{}", self.rng.below(100));
                         v.push(H::El("sup".into(), attrs, vec![H::Text(d)]));
                     } else {
